@@ -324,6 +324,7 @@ func main() {
 		cw.Add(fmt.Sprintf("mkSt %s %s", sim.CoqList(ops), sim.CoqList(outs)), map[string]any{"kind": "witness-nested-keys-historical", "finding": "versioned-iteration-nested-keys", "ops": strings.Join(ops, "; "), "outs": strings.Join(outs, "; ")})
 		st.Cases++
 	}
+	blockHistoryCases(r.Fork(), 1+*nProg/10, *outDir)
 	cw.Close(st)
 	fmt.Printf("c10: %d programs (%d distinct non-trivial), ops %v, physical %v\n", st.Cases, st.Distinct, st.Ops, st.Physical)
 }
